@@ -1,61 +1,388 @@
 //! Monitors for the text-terminal properties (C01/C03 reach, C09, C10, C16, C20).
 
-use crate::monitors::Monitor;
-use crate::term::{EvResult, Session};
+use crate::monitors::{inv, Monitor};
+use crate::term::{ByteResult, EvResult, ParserBox, Session};
 use crate::trace::{RunStats, Trace, Violation};
+use icy_engine::{AutoWrapMode, Buffer, OriginMode, TextPane};
+use std::collections::HashSet;
 
-pub struct ReachMonitor;
+fn state_sig(s: &Session, emu_h: u64) -> u64 {
+    let b = &s.buf;
+    let ts = &b.terminal_state;
+    let p = s.caret.get_position();
+    let first = b.get_first_visible_line();
+    let (w, h) = (ts.get_width().max(1), ts.get_height().max(1));
+    let zx = if p.x <= 0 {
+        0
+    } else if p.x >= w - 1 {
+        2
+    } else {
+        1
+    };
+    let ry = p.y - first;
+    let zy = if ry <= 0 {
+        0
+    } else if ry >= h - 1 {
+        2
+    } else {
+        1
+    };
+    let inflight = s.queue.len().min(2) as u64;
+    let mut v = emu_h;
+    v = v.wrapping_mul(31).wrapping_add(zx);
+    v = v.wrapping_mul(31).wrapping_add(zy);
+    v = v.wrapping_mul(31).wrapping_add(u64::from(first > 0));
+    v = v.wrapping_mul(31).wrapping_add(u64::from(ts.get_margins_top_bottom().is_some()));
+    v = v.wrapping_mul(31).wrapping_add(u64::from(ts.get_margins_left_right().is_some()));
+    v = v.wrapping_mul(31).wrapping_add(u64::from(ts.origin_mode == OriginMode::WithinMargins));
+    v = v.wrapping_mul(31).wrapping_add(u64::from(ts.auto_wrap_mode == AutoWrapMode::AutoWrap));
+    v = v.wrapping_mul(31).wrapping_add(u64::from(s.caret.insert_mode));
+    v = v.wrapping_mul(31).wrapping_add(inflight);
+    v
+}
+
+/// Reach statistics shared by all terminal monitors.
+pub struct Reach {
+    emu_h: u64,
+    seen: HashSet<u64>,
+    errs: HashSet<u64>,
+}
+
+impl Reach {
+    pub fn new(t: &Trace) -> Self {
+        Reach {
+            emu_h: crate::rng::fnv(&t.cfg.emu),
+            seen: HashSet::new(),
+            errs: HashSet::new(),
+        }
+    }
+    pub fn observe(&mut self, s: &Session, r: &EvResult, stats: &mut RunStats) {
+        if let EvResult::Byte(b, br) = r {
+            let mut sig = state_sig(s, self.emu_h);
+            if self.seen.insert(sig) {
+                stats.sig("state", sig);
+            }
+            // state x input class transitions
+            let class = match *b {
+                0x1b => 0,
+                0..=0x1f => 1,
+                b'0'..=b'9' | b';' => 2,
+                0x40..=0x7e => 3,
+                0x80..=0xff => 4,
+                _ => 5,
+            };
+            sig = sig.wrapping_mul(131).wrapping_add(class).wrapping_add(if matches!(br, ByteResult::Err(_)) { 77 } else { 0 });
+            if self.seen.insert(sig ^ 0x5555) {
+                stats.sig("transition", sig ^ 0x5555);
+            }
+            if let ByteResult::Err(m) = br {
+                let h = crate::rng::fnv(crate::term::err_class(m));
+                if self.errs.insert(h) {
+                    stats.sig("err_variant", h);
+                }
+            }
+            if s.buf.get_first_visible_line() > 0 {
+                stats.count("probe_byte_with_scrollback_present");
+            }
+        }
+    }
+}
+
+pub struct ReachMonitor {
+    reach: Reach,
+}
 impl ReachMonitor {
-    pub fn new(_t: &Trace) -> Self {
-        ReachMonitor
+    pub fn new(t: &Trace) -> Self {
+        ReachMonitor { reach: Reach::new(t) }
     }
 }
 impl Monitor for ReachMonitor {
-    fn after(&mut self, _s: &Session, _at: usize, _r: &EvResult, _stats: &mut RunStats) -> Option<Violation> {
+    fn after(&mut self, s: &Session, _at: usize, r: &EvResult, stats: &mut RunStats) -> Option<Violation> {
+        self.reach.observe(s, r, stats);
         None
     }
 }
-pub struct CaretMonitor;
+
+// ------------------------------------------------------------------ C09
+
+pub struct CaretMonitor {
+    reach: Reach,
+    fixed_grid: bool,
+    init_size: (i32, i32),
+    armed: bool,
+}
+
 impl CaretMonitor {
-    pub fn new(_t: &Trace, _s: &Session) -> Self {
-        CaretMonitor
+    pub fn new(t: &Trace, s: &Session) -> Self {
+        CaretMonitor {
+            reach: Reach::new(t),
+            fixed_grid: t.cfg.emu == "viewdata" || t.cfg.emu == "mode7",
+            init_size: (s.buf.get_width(), s.buf.get_height()),
+            armed: true,
+        }
     }
 }
+
 impl Monitor for CaretMonitor {
-    fn after(&mut self, _s: &Session, _at: usize, _r: &EvResult, _stats: &mut RunStats) -> Option<Violation> {
+    fn after(&mut self, s: &Session, at: usize, r: &EvResult, stats: &mut RunStats) -> Option<Violation> {
+        self.reach.observe(s, r, stats);
+        let EvResult::Byte(_, _) = r else { return None };
+        if s.resize_seen {
+            // the property excludes streams that request a text-area resize
+            if self.armed {
+                self.armed = false;
+                stats.count("caret_monitor_disarmed_by_resize");
+            }
+            return None;
+        }
+        let b = &s.buf;
+        let p = s.caret.get_position();
+        let w = b.terminal_state.get_width();
+        let h = b.terminal_state.get_height();
+        let first = b.get_first_visible_line();
+        stats.count("caret_checks");
+        if p.x < 0 || p.x >= w {
+            return Some(inv("C09", "caret_column", format!("cursor column {} outside 0..{} after byte {} of the stream", p.x, w, s.bytes_delivered), at));
+        }
+        if p.y < first || p.y >= first + h {
+            return Some(inv(
+                "C09",
+                "caret_row",
+                format!("cursor row {} outside the visible rows {}..{} after byte {} of the stream", p.y, first, first + h, s.bytes_delivered),
+                at,
+            ));
+        }
+        if self.fixed_grid {
+            let sz = b.get_size();
+            let ts = b.terminal_state.get_size();
+            let lw = b.layers[0].get_size().width;
+            if (sz.width, sz.height) != self.init_size || (ts.width, ts.height) != self.init_size || lw != self.init_size.0 {
+                return Some(inv(
+                    "C09",
+                    "fixed_grid_size",
+                    format!(
+                        "fixed page changed geometry: buffer {}x{}, terminal {}x{}, layer width {} (started {}x{})",
+                        sz.width, sz.height, ts.width, ts.height, lw, self.init_size.0, self.init_size.1
+                    ),
+                    at,
+                ));
+            }
+        }
+        // probes: cursor on each edge
+        if p.x == 0 {
+            stats.count("probe_caret_left_edge");
+        }
+        if p.x == w - 1 {
+            stats.count("probe_caret_right_edge");
+        }
+        if p.y == first + h - 1 {
+            stats.count("probe_caret_bottom_edge");
+            if first > 0 {
+                stats.count("probe_caret_bottom_edge_with_scrollback");
+            }
+        }
         None
     }
 }
-pub struct UnicodeMonitor;
+
+// ------------------------------------------------------------------ C10
+
+pub fn is_scalar(v: u32) -> bool {
+    v <= 0xD7FF || (0xE000..=0x10FFFF).contains(&v)
+}
+
+/// Every cell of every layer holds a scalar value; every engine-built string is valid UTF-8.
+pub fn check_unicode(prop: &str, buf: &Buffer, at: usize, what: &str) -> Option<Violation> {
+    for (li, layer) in buf.layers.iter().enumerate() {
+        for (y, line) in layer.lines.iter().enumerate() {
+            for (x, c) in line.chars.iter().enumerate() {
+                let v = c.ch as u32;
+                if !is_scalar(v) {
+                    return Some(inv(prop, "invalid_char", format!("{what}: layer {li} cell ({x},{y}) holds U+{v:X}, not a Unicode scalar value"), at));
+                }
+            }
+        }
+        if std::str::from_utf8(layer.properties.title.as_bytes()).is_err() {
+            return Some(inv(prop, "invalid_utf8", format!("{what}: title of layer {li} is not valid UTF-8"), at));
+        }
+        for l in layer.hyperlinks() {
+            if let Some(u) = &l.url {
+                if std::str::from_utf8(u.as_bytes()).is_err() {
+                    return Some(inv(prop, "invalid_utf8", format!("{what}: hyperlink url is not valid UTF-8"), at));
+                }
+            }
+        }
+    }
+    for (slot, f) in buf.font_iter() {
+        if std::str::from_utf8(f.name.as_bytes()).is_err() {
+            return Some(inv(prop, "invalid_utf8", format!("{what}: name of font {slot} is not valid UTF-8"), at));
+        }
+        // glyph table keys are chars too
+        if f.length > 0x11_0000 {
+            return Some(inv(prop, "invalid_char", format!("{what}: font {slot} claims {} glyphs, more than there are scalar values", f.length), at));
+        }
+    }
+    if let Some(sauce) = buf.get_sauce() {
+        let strs = [sauce.title.to_string(), sauce.author.to_string(), sauce.group.to_string()];
+        for st in &strs {
+            if std::str::from_utf8(st.as_bytes()).is_err() {
+                return Some(inv(prop, "invalid_utf8", format!("{what}: SAUCE string is not valid UTF-8"), at));
+            }
+        }
+        for c in &sauce.comments {
+            if std::str::from_utf8(c.to_string().as_bytes()).is_err() {
+                return Some(inv(prop, "invalid_utf8", format!("{what}: SAUCE comment is not valid UTF-8"), at));
+            }
+        }
+    }
+    None
+}
+
+pub struct UnicodeMonitor {
+    reach: Reach,
+    every: u64,
+    n: u64,
+}
+
 impl UnicodeMonitor {
-    pub fn new(_t: &Trace) -> Self {
-        UnicodeMonitor
+    pub fn new(t: &Trace) -> Self {
+        UnicodeMonitor {
+            reach: Reach::new(t),
+            every: t.cfg.monitor_every.max(1),
+            n: 0,
+        }
+    }
+    fn parser_strings(s: &Session, at: usize) -> Option<Violation> {
+        if let ParserBox::Ansi(p) = &s.parser {
+            for (name, st) in [("pending DCS/OSC payload", &p.parse_string), ("macro-in-DCS buffer", &p.macro_dcs)] {
+                if std::str::from_utf8(st.as_bytes()).is_err() {
+                    return Some(inv("C10", "invalid_utf8", format!("{name} is not valid UTF-8"), at));
+                }
+            }
+            for l in &p.hyper_links {
+                if let Some(u) = &l.url {
+                    if std::str::from_utf8(u.as_bytes()).is_err() {
+                        return Some(inv("C10", "invalid_utf8", "open hyperlink url is not valid UTF-8".into(), at));
+                    }
+                }
+            }
+        }
+        None
     }
 }
+
 impl Monitor for UnicodeMonitor {
-    fn after(&mut self, _s: &Session, _at: usize, _r: &EvResult, _stats: &mut RunStats) -> Option<Violation> {
-        None
+    fn after(&mut self, s: &Session, at: usize, r: &EvResult, stats: &mut RunStats) -> Option<Violation> {
+        self.reach.observe(s, r, stats);
+        let EvResult::Byte(b, _) = r else { return None };
+        self.n += 1;
+        // after every final byte of a control function (fills, numeric prints land here) and every k-th byte
+        let is_final = (0x40..=0x7e).contains(b);
+        if !(is_final || self.n % self.every == 0) {
+            return None;
+        }
+        stats.count("unicode_scans");
+        if s.buf.layers.iter().map(|l| l.lines.len()).sum::<usize>() > 3000 && self.n % 64 != 0 {
+            return None;
+        }
+        check_unicode("C10", &s.buf, at, "terminal session").or_else(|| Self::parser_strings(s, at))
+    }
+    fn at_end(&mut self, s: &Session, at: usize, stats: &mut RunStats) -> Option<Violation> {
+        stats.count("unicode_scans");
+        check_unicode("C10", &s.buf, at, "terminal session (end of stream)").or_else(|| Self::parser_strings(s, at))
     }
 }
-pub struct PaletteMonitor;
+
+// ------------------------------------------------------------------ C16 (session leg)
+
+pub struct PaletteMonitor {
+    reach: Reach,
+    snapshot: Vec<(u8, u8, u8)>,
+    armed: bool,
+}
+
 impl PaletteMonitor {
-    pub fn new(_s: &Session) -> Self {
-        PaletteMonitor
+    pub fn new(t: &Trace, s: &Session) -> Self {
+        let n = s.buf.palette.len();
+        PaletteMonitor {
+            reach: Reach::new(t),
+            snapshot: (0..n).map(|i| s.buf.palette.get_rgb(i as u32)).collect(),
+            armed: true,
+        }
     }
 }
+
 impl Monitor for PaletteMonitor {
-    fn after(&mut self, _s: &Session, _at: usize, _r: &EvResult, _stats: &mut RunStats) -> Option<Violation> {
+    fn after(&mut self, s: &Session, at: usize, r: &EvResult, stats: &mut RunStats) -> Option<Violation> {
+        self.reach.observe(s, r, stats);
+        let EvResult::Byte(_, _) = r else { return None };
+        if s.osc_byte_seen {
+            // OSC 4 is the one legitimate way for a stream to redefine an index; it needs ']'
+            if self.armed {
+                self.armed = false;
+                stats.count("palette_monitor_disarmed_by_osc_byte");
+            }
+            return None;
+        }
+        let pal = &s.buf.palette;
+        let n = pal.len();
+        stats.count("palette_checks");
+        if n < self.snapshot.len() {
+            return Some(inv("C16", "palette_shrunk", format!("palette went from {} to {n} colours; indices {n}.. no longer resolve", self.snapshot.len()), at));
+        }
+        for (i, want) in self.snapshot.iter().enumerate() {
+            let have = pal.get_rgb(i as u32);
+            if have != *want {
+                return Some(inv(
+                    "C16",
+                    "palette_index_changed",
+                    format!("palette index {i} resolved to {want:?} and now resolves to {have:?} after byte {} of the stream", s.bytes_delivered),
+                    at,
+                ));
+            }
+        }
+        if n > self.snapshot.len() {
+            stats.add("probe_palette_grew", (n - self.snapshot.len()) as u64);
+            for i in self.snapshot.len()..n {
+                self.snapshot.push(pal.get_rgb(i as u32));
+            }
+        }
         None
     }
 }
-pub struct CanvasMonitor;
+
+// ------------------------------------------------------------------ C20
+
+pub struct CanvasMonitor {
+    reach: Reach,
+}
+
 impl CanvasMonitor {
-    pub fn new(_t: &Trace) -> Self {
-        CanvasMonitor
+    pub fn new(t: &Trace) -> Self {
+        CanvasMonitor { reach: Reach::new(t) }
     }
 }
+
 impl Monitor for CanvasMonitor {
-    fn after(&mut self, _s: &Session, _at: usize, _r: &EvResult, _stats: &mut RunStats) -> Option<Violation> {
+    fn after(&mut self, s: &Session, at: usize, r: &EvResult, stats: &mut RunStats) -> Option<Violation> {
+        self.reach.observe(s, r, stats);
+        if let EvResult::Picture(p) = r {
+            match p {
+                Some((size, len)) => {
+                    stats.count("probe_picture_some");
+                    let want = i64::from(size.width) * i64::from(size.height) * 4;
+                    if size.width < 0 || size.height < 0 || want != *len as i64 {
+                        return Some(inv(
+                            "C20",
+                            "canvas_incomplete",
+                            format!("get_picture_data returned {len} bytes for a {} x {} canvas (expected {want})", size.width, size.height),
+                            at,
+                        ));
+                    }
+                }
+                None => stats.count("probe_picture_none"),
+            }
+        }
         None
     }
 }
